@@ -16,6 +16,8 @@ BOUND = ("networks with <= 6 variables (1-variable exhaustive, sampled 2-variabl
          "set/reset pair) with an optional downstream latch / gated oscillator, and the networks of (d): a limited prefix (bfs with level limit 0..3, dfs with stack limit 0..4, "
          "size-limited bfs / minimal-space / attractor-seed expansion, manual single-node expansions) followed by dfs with stack limit 0..4 or by attractor-seed expansion "
          "with size limit 1..8 (seeded: 1..12) - True claims completion")
+BOUND += ("; (f) block expansion with size limit 1..14 (source shortcuts on; MAA check on/off) on 10 hand-built networks with source variables at the root or "
+          "appearing below a stable motif - True claims completion")
 RULE = "non-trivial = the network has at least two minimal trap spaces or the full reference diagram has at least 3 nodes"
 CASE_TIMEOUT = 60.0
 
@@ -57,7 +59,35 @@ def limit_cases(seed, tier):
             yield {"net": name, "bnet": bnet, "prefix": pre, "final": final}
 
 
+def block_limit_nets():
+    """networks with source variables at the root, or variables that become sources only once a stable motif is fixed (w' = w & x below x=1)"""
+    late = lambda k: "; ".join([f"w{i}, w{i} & x" for i in range(k)] + [f"v{i}, v{i} | !y" for i in range(k // 2)])
+    out = [(f"switch_sources{k}", families.union(families.switch(), families.sources(k))) for k in (1, 2, 3)]
+    out += [(f"switch_late{k}", families.norm("x, y; y, x; " + late(k))) for k in (1, 2, 3)]
+    out += [("latch_sources2", families.union(families.latch(1), families.sources(2))),
+            ("toggle_late", families.norm("x, !y; y, !x; w, w & x; v, v | y")),
+            ("switch_late_src", families.norm("x, y; y, x; w, w & x; s, s")),
+            ("two_switch_late", families.norm("x, y; y, x; a, b; b, a; w, w & x & a"))]
+    return out
+
+
+def block_limit_cases(seed, tier):
+    """(f), added after the round-5 seeded-change review (C03-m7): block expansion with a size limit on networks where a node has k >= 1 source variables,
+    so that the 2^k source combinations cross the limit at that node while every other node still fits - True claims completion. Fresh diagrams only:
+    the property claims block expansion from the root of a fresh diagram (after a plain prefix it skips the expanded root and reports True: not claimed)."""
+    for name, bnet in block_limit_nets():
+        for lim in range(1, 15):
+            for maa in (True, False):
+                yield {"net": name, "bnet": bnet, "prefix": [], "final": ["block", maa, lim, True, False]}
+            if lim % 3 == 0:
+                yield {"net": name, "bnet": bnet, "prefix": [], "final": ["block", True, lim, False, False]}
+
+
 def cases(seed, tier):
+    yield from families.interleave((block_limit_cases(seed, tier), 1), (all_other_cases(seed, tier), 6))
+
+
+def all_other_cases(seed, tier):
     # shape families interleaved 1:1:4 with the general family (the fixed cases of (d) are all handed out within the first ~1000 cases, those of (e) within ~4000)
     yield from families.interleave((shape_cases(seed, tier), 1), (limit_cases(seed, tier), 1), (general_cases(seed, tier), 4))
 
